@@ -74,7 +74,7 @@ def check(case, rec):
     data, _i, lay = encode_file(fs)
     ex = expected_content(fs)
     chans = [p for p in ex.channel_paths() if ex.length(p) > 0 and ex.objects[p]['type'] is not None]
-    rec.label(*S.spec_classes(fs))
+    rec.label(*(['daqmx'] if any(sg.get('daqmx') for sg in fs['segments']) else S.spec_classes(fs)))
     if not chans:
         return
     truncated = False
@@ -197,8 +197,18 @@ def cases(draw, **kw):
     return {'fs': fs, 'reqs': reqs, 'cut': cut}
 
 
+@st.composite
+def daqmx_cases(draw):
+    from vf.daqmx import daqmx_file
+    fs = draw(daqmx_file(max_len=12, max_chunks=4, max_segments=3))
+    base = draw(cases(max_segments=2, min_segments=2))
+    return {'fs': fs, 'reqs': base['reqs'], 'cut': None}
+
+
 def jobs(tier):
     if tier == 'quick':
-        return [Job('files', 'hyp', lambda: cases(), n=6000)]
+        return [Job('files', 'hyp', lambda: cases(), n=6000),
+                Job('daqmx_files', 'hyp', daqmx_cases, n=1000)]
     return [Job('files', 'hyp', lambda: cases(), n=40000),
-            Job('large_chunks', 'hyp', lambda: cases(max_n=400, max_chunks=6), n=5000)]
+            Job('large_chunks', 'hyp', lambda: cases(max_n=400, max_chunks=6), n=5000),
+            Job('daqmx_files', 'hyp', daqmx_cases, n=20000)]
